@@ -542,7 +542,7 @@ class C04(Prop):
             if ma and mb and ma.group(1) == mb.group(1):
                 out.append(" ".join(head + [cfg] + ops[:i] + ["s%s:%s%s" % (ma.group(1), ma.group(2), mb.group(2))] + ops[i + 2:]))
         items = cfg.split(",")
-        for i in range(len(items)):
+        for i in range(len(items) if not line.startswith("flt") else 0):   # flt: the cfg is what makes the history observable
             rest = items[:i] + items[i + 1:]
             out.append(" ".join(head + [",".join(rest) if rest else "-"] + ops))
         for i, o in enumerate(ops):
